@@ -64,6 +64,7 @@ func TestVerif_C33_Recover(t *testing.T) {
 }
 
 func c33Case(rt *rapid.T, rec *vstat.Rec) {
+	g8aNextCase()
 	base, err := os.MkdirTemp("", "c33")
 	if err != nil {
 		rt.Skip("tempdir")
@@ -206,7 +207,9 @@ func c33Case(rt *rapid.T, rec *vstat.Rec) {
 	if kind == "self+nonvoters" || kind == "self+voters" {
 		n := rapid.IntRange(1, 2).Draw(rt, "others")
 		for i := 0; i < n; i++ {
-			peers = append(peers, g8aPeer{ID: fmt.Sprintf("other%d", i+1), Address: g8aUnusedAddr(), NonVoter: kind == "self+nonvoters"})
+			oaddr, release := g8aReserveAddr()
+			defer release()
+			peers = append(peers, g8aPeer{ID: fmt.Sprintf("other%d", i+1), Address: oaddr, NonVoter: kind == "self+nonvoters"})
 		}
 		canLead = kind == "self+nonvoters"
 		if rapid.Bool().Draw(rt, "selfLast") {
